@@ -444,8 +444,8 @@ theorem gated_sub_family {ss : Settings} {o : Offer} {v s : Nat} (h : s ∈ gate
     · cases h
   · exact Or.inr h
 
-theorem prfFiltered_no_psk {cs ss : Settings} {cc : ClientCfg} {v : Nat} {l : List Nat} (h : cs.pskConfigs = []) :
-    prfFiltered ss (clientOffer cs cc) v l = l := by
+theorem prfFiltered_no_psk {cs ss : Settings} {cc : ClientCfg} {v : Nat} {c : Option Cred} {l : List Nat}
+    (h : cs.pskConfigs = []) : prfFiltered ss (clientOffer cs cc) v c l = l := by
   unfold prfFiltered pskPrfs
   rw [offer_pskIds_nil h]
   simp
@@ -1401,5 +1401,11 @@ theorem compatible_completes_13 {cs ss : Settings} {cc : ClientCfg} {sc : Server
     rw [if_pos this]; exact hp
   rw [ok_bind hca]
   exact serverFinish_noClientCert hpc
+
+/-! ## SRP / anonymous configurations for the regression theorems of Props/C03 -/
+def srpClient : ClientCfg := { flavour := .srp, cred := none, alpn := [], serverName := "" }
+def srpServer : ServerCfg :=
+  { hasDB := true, srpBits := 2048, cred := none, anon := false, reqCert := false, alpn := [], sni := "" }
+def srpCertServer (c : Cred) : ServerCfg := { srpServer with cred := some c }
 
 end Tls.Neg
